@@ -6,6 +6,7 @@ import Driver.Watch
 import Driver.Src
 import Driver.Cell
 import Driver.Reloader
+import Driver.Iso
 /-!
 # amdrv — the model driver
 
@@ -21,6 +22,7 @@ structure Engines where
   watch : Driver.Watch.St := {}
   src : Driver.Src.St := {}
   cell : Driver.Cell.St := {}
+  iso : Driver.Iso.St := {}
 
 def dispatch (e : Engines) (ws : List String) : Engines × String :=
   match ws with
@@ -36,6 +38,7 @@ def dispatch (e : Engines) (ws : List String) : Engines × String :=
     else if w.startsWith "watch." then
       let (s, o) := Driver.Watch.step e.watch ws; ({ e with watch := s }, o)
     else if w.startsWith "hr." || w.startsWith "idle." then (e, Driver.Reloader.step ws)   -- C08 / C15
+    else if w.startsWith "iso." then let (s, o) := Driver.Iso.step e.iso ws; ({ e with iso := s }, o)
     else if w.startsWith "s." then let (s, o) := Driver.Src.stepAll e.src ws; ({ e with src := s }, o)
     else if w.startsWith "cell." then let (s, o) := Driver.Cell.step e.cell ws; ({ e with cell := s }, o)
     else
